@@ -39,7 +39,9 @@ Qed.
 
 (* ---------------------------------------------------------------- the buffer keeps its size *)
 
-Definition keeps (c : line -> res line) : Prop := forall l l', wf l -> c l = Ok l' -> wf l'.
+(* inside the buffer: 2048 bytes and the write index at most 2048 *)
+Definition ins (l : line) : Prop := wf l /\ (index l <= BUFSZ)%nat.
+Definition keeps (c : line -> res line) : Prop := forall l l', ins l -> c l = Ok l' -> ins l'.
 
 Lemma keeps_ok : keeps (fun l => Ok l).
 Proof. intros l l' W E. injection E as <-; exact W. Qed.
@@ -56,8 +58,8 @@ Proof. intros K l l' W E. destruct r; cbn [bind] in E; try discriminate. eapply 
 
 Lemma keeps_byte b : keeps (fun l => append_byte l b).
 Proof.
-  intros l l' W E. unfold append_byte in E. destruct (Nat.ltb (index l) BUFSZ); [|discriminate].
-  injection E as <-. unfold wf in *. cbn [buf]. rewrite set_nth_length. exact W.
+  intros l l' [W H] E. unfold append_byte in E. destruct (Nat.ltb_spec (index l) BUFSZ); [|discriminate].
+  injection E as <-. split; [|cbn [index]; lia]. unfold wf in *. cbn [buf]. rewrite set_nth_length. exact W.
 Qed.
 
 Lemma write_at_keeps b i t : (i + List.length t <= List.length b)%nat -> List.length (write_at b i t) = List.length b.
@@ -65,13 +67,17 @@ Proof. apply write_at_length. Qed.
 
 Lemma keeps_copy s : keeps (fun l => copy_in l s).
 Proof.
-  intros l l' W E. unfold copy_in in E. destruct (Nat.ltb_spec BUFSZ (index l)); [discriminate|].
-  injection E as <-. unfold wf in *. cbn [buf]. rewrite write_at_length; [exact W|].
+  intros l l' [W H] E. unfold copy_in in E. destruct (Nat.ltb_spec BUFSZ (index l)); [discriminate|].
+  injection E as <-. pose proof (Nat.le_min_r (List.length s) (BUFSZ - index l)).
+  split; [|cbn [index]; lia]. unfold wf in *. cbn [buf]. rewrite write_at_length; [exact W|].
   rewrite firstn_length. unfold bytes, byte in *. lia.
 Qed.
 
+Lemma ins_dec l : ins l -> ins (dec_index l).
+Proof. intros [W H]. split; [exact W|]. unfold dec_index. cbn [index]. lia. Qed.
+
 Lemma keeps_dec c : keeps c -> keeps (fun l => (l1 <- c l ;; Ok (dec_index l1))%res).
-Proof. intros K. apply keeps_bind; [exact K|]. intros l l' W E. injection E as <-. exact W. Qed.
+Proof. intros K. apply keeps_bind; [exact K|]. intros l l' W E. injection E as <-. apply ins_dec. exact W. Qed.
 
 Ltac kp :=
   repeat first [ apply keeps_bind | apply keeps_byte | apply keeps_copy | apply keeps_ok
@@ -96,11 +102,24 @@ Proof.
   apply IH in E. rewrite E. apply set_nth_length.
 Qed.
 
+Lemma put_digits_first f b i v b' : v <> 0 -> put_digits (S f) b i v = Ok b' -> (i < BUFSZ)%nat.
+Proof.
+  intros Hv E. cbn [put_digits] in E. destruct (N.eqb_spec v 0); [contradiction|].
+  destruct (Nat.ltb_spec i BUFSZ); [assumption|discriminate].
+Qed.
+
+Lemma count_digits_pos v : v <> 0 -> (1 <= count_digits 10 v)%nat.
+Proof. intros H. cbn [count_digits]. destruct (N.eqb_spec v 0); [contradiction|lia]. Qed.
+
+Lemma index_mk b i : index (mkLine b i) = i.
+Proof. reflexivity. Qed.
+
 Lemma keeps_print_int v : keeps (fun l => print_int l v).
 Proof.
-  intros l l' W E. unfold print_int in E. destruct (v =? 0); [eapply keeps_byte; eassumption|].
+  intros l l' [W H] E. unfold print_int in E. destruct (N.eqb_spec v 0) as [Z|Z]; [eapply keeps_byte; [split|]; eassumption|].
   destruct (put_digits 10 (buf l) _ v) as [b| | |] eqn:P; cbn [bind] in E; try discriminate.
-  injection E as <-. unfold wf in *. cbn [buf]. rewrite (put_digits_length _ _ _ _ _ P). exact W.
+  injection E as <-. pose proof (put_digits_first _ _ _ _ _ Z P) as F. pose proof (count_digits_pos v Z).
+  split; [|rewrite index_mk; change (index l + count_digits 10 v <= BUFSZ)%nat; lia]. unfold wf in *. cbn [buf]. rewrite (put_digits_length _ _ _ _ _ P). exact W.
 Qed.
 
 Lemma keeps_put_ip4 a b c d : keeps (fun l => put_ip4 l a b c d).
@@ -158,7 +177,7 @@ Lemma keeps_fill k : keeps (fill_spaces k).
 Proof. induction k as [|k IH]; cbn [fill_spaces]; [apply keeps_ok|]. apply keeps_bind; [apply keeps_byte|exact IH]. Qed.
 
 Lemma keeps_dec_then_byte b : keeps (fun l => append_byte (dec_index l) b).
-Proof. intros l l' W E. eapply (keeps_byte b (dec_index l)); [exact W|exact E]. Qed.
+Proof. intros l l' W E. eapply (keeps_byte b (dec_index l)); [apply ins_dec; exact W|exact E]. Qed.
 
 Lemma buf_mk b i : buf (mkLine b i) = b.
 Proof. reflexivity. Qed.
@@ -168,16 +187,17 @@ Lemma keeps_module_tag mm :
                   else let n := Nat.min 7 (BUFSZ - index l) in
                        let b1 := write_at (buf l) (index l) (firstn n [32; 32; 32; 32; 32; 32; 58]) in
                        if Nat.ltb BUFSZ (index l + 6) then Panic
-                       else Ok (mkLine (write_at b1 (index l) (firstn 6 mm)) (index l + 7))).
+                       else Ok (mkLine (write_at b1 (index l) (firstn 6 mm)) (index l + n))).
 Proof.
-  intros l l' W E. destruct (Nat.ltb_spec BUFSZ (index l)); [discriminate|]. cbv zeta in E.
+  intros l l' [W H] E. destruct (Nat.ltb_spec BUFSZ (index l)); [discriminate|]. cbv zeta in E.
   destruct (Nat.ltb_spec BUFSZ (index l + 6)); [discriminate|]. injection E as <-.
+  pose proof (Nat.le_min_r 7 (BUFSZ - index l)) as M.
+  split; [|rewrite index_mk; change (index l + Nat.min 7 (BUFSZ - index l) <= BUFSZ)%nat; lia].
   unfold wf in *. rewrite buf_mk.
-  set (n := Nat.min 7 (BUFSZ - index l)).
+  set (n := Nat.min 7 (BUFSZ - index l)) in *.
   assert (L1 : List.length (write_at (buf l) (index l) (firstn n [32; 32; 32; 32; 32; 32; 58])) = BUFSZ).
   { rewrite write_at_length; [exact W|]. rewrite W, firstn_length.
-    pose proof (Nat.le_min_l n (List.length [32; 32; 32; 32; 32; 32; 58])).
-    pose proof (Nat.le_min_r 7 (BUFSZ - index l)). fold n in H2. lia. }
+    pose proof (Nat.le_min_l n (List.length [32; 32; 32; 32; 32; 32; 58])). lia. }
   rewrite write_at_length; [exact L1|].
   match goal with |- (_ <= ?X)%nat => replace X with BUFSZ by (symmetry; exact L1) end.
   match goal with |- (_ + List.length ?X <= _)%nat => change X with (firstn 6 mm) end. rewrite firstn_length.
@@ -197,14 +217,10 @@ Proof.
     repeat (apply keeps_bind; [apply keeps_write_hex|]; apply keeps_bind; [apply keeps_byte|]). apply keeps_write_hex.
   - unfold f_ipslice. apply keeps_bind; [apply keeps_field_open|].
     destruct v as [ip|]; [apply (keeps_ip_body ip)|apply keeps_copy].
-  - unfold f_ip. apply keeps_bind; [apply keeps_field_open|].
-    destruct a; [|apply keeps_copy].
-    intros l l' W E. destruct (Nat.ltb_spec BUFSZ (index l)); [discriminate|]. injection E as <-.
-    unfold wf in *. cbn [buf]. rewrite write_at_length; [exact W|]. rewrite firstn_length.
-    pose proof (Nat.le_min_l (BUFSZ - index l) (List.length t)). rewrite W. lia.
+  - unfold f_ip. apply keeps_bind; [apply keeps_field_open|]. destruct a; apply keeps_copy.
   - unfold f_string. apply keeps_bind; [apply keeps_field_open|]. apply keeps_bind; [apply keeps_byte|].
     apply keeps_bind; [apply keeps_copy|].
-    intros l l' W E. destruct (Nat.eqb (index l) BUFSZ); [eapply (keeps_byte 34 (dec_index l))|eapply (keeps_byte 34 l)]; eassumption.
+    intros l l' W E. destruct (Nat.eqb (index l) BUFSZ); [eapply (keeps_byte 34 (dec_index l)); [apply ins_dec; exact W|exact E]|eapply (keeps_byte 34 l); eassumption].
   - unfold f_bytes. apply keeps_bind; [apply keeps_field_open|kp].
   - unfold f_label. kp.
   - unfold f_error. kp.
@@ -228,20 +244,22 @@ Proof.
     + destruct (rem <=? 10)%Z; [injection E as <-; exact W|].
       destruct (Z.quot (rem - 10) 3 <? 0)%Z; [discriminate|].
       set (l0 := mkLine (write_at (buf l) (BUFSZ - 10) TRUNCATED) (index l)) in *.
-      assert (W0 : wf l0).
-      { unfold wf, l0 in *. cbn [buf]. rewrite write_at_length; [exact W|]. rewrite W. unfold TRUNCATED. cbn [List.length]. pose proof bufsz_ge_10. lia. }
+      assert (W0 : ins l0).
+      { destruct W as [W H]. split; [|exact H]. unfold wf, l0 in *. cbn [buf]. rewrite write_at_length; [exact W|].
+        rewrite W. unfold TRUNCATED. cbn [List.length]. pose proof bufsz_ge_10. lia. }
       destruct (append_byte l0 32) as [l1| | |] eqn:E1; cbn [bind] in E; try discriminate.
       destruct (copy_in l1 name) as [l2| | |] eqn:E2; cbn [bind] in E; try discriminate.
       destruct (copy_in l2 [61; 91]) as [l3| | |] eqn:E3; cbn [bind] in E; try discriminate.
       destruct (ba_loop _ l3) as [l4| | |] eqn:E4; cbn [bind] in E; try discriminate.
       destruct (append_byte _ 93) as [l5| | |] eqn:E5; cbn [bind] in E; try discriminate.
       destruct (fill_spaces _ l5) as [l6| | |] eqn:E6; cbn [bind] in E; try discriminate.
-      injection E as <-. unfold wf. cbn [buf].
+      injection E as <-.
       pose proof (keeps_byte 32 l0 l1 W0 E1) as W1. pose proof (keeps_copy name l1 l2 W1 E2) as W2.
       pose proof (keeps_copy _ l2 l3 W2 E3) as W3. pose proof (keeps_ba_loop _ l3 l4 W3 E4) as W4.
-      assert (W5 : wf l5).
-      { destruct (firstn _ v); [eapply (keeps_byte 93 l4)|eapply (keeps_byte 93 (dec_index l4))]; eassumption. }
-      exact (keeps_fill _ l5 l6 W5 E6).
+      assert (W5 : ins l5).
+      { destruct (firstn _ v); [eapply (keeps_byte 93 l4)|eapply (keeps_byte 93 (dec_index l4)); [apply ins_dec|]]; eassumption. }
+      destruct (keeps_fill _ l5 l6 W5 E6) as [W6 _].
+      split; [exact W6|]. rewrite index_mk. lia.
     + replace (mkLine (buf l) (index l)) with l in E by (destruct l; reflexivity).
       destruct (append_byte l 32) as [l1| | |] eqn:E1; cbn [bind] in E; try discriminate.
       destruct (copy_in l1 name) as [l2| | |] eqn:E2; cbn [bind] in E; try discriminate.
@@ -251,14 +269,31 @@ Proof.
       injection E as <-.
       pose proof (keeps_byte 32 l l1 W E1) as W1. pose proof (keeps_copy name l1 l2 W1 E2) as W2.
       pose proof (keeps_copy _ l2 l3 W2 E3) as W3. pose proof (keeps_ba_loop _ l3 l4 W3 E4) as W4.
-      destruct v; [eapply (keeps_byte 93 l4)|eapply (keeps_byte 93 (dec_index l4))]; eassumption.
+      destruct v; [eapply (keeps_byte 93 l4)|eapply (keeps_byte 93 (dec_index l4)); [apply ins_dec|]]; eassumption.
 Qed.
 
-Theorem run_ops_keeps os : forall l l', wf l -> run_ops l os = Ok l' -> wf l'.
+Theorem run_ops_keeps os : forall l l', ins l -> run_ops l os = Ok l' -> ins l'.
 Proof.
   induction os as [|o r IH]; intros l l' W E; cbn [run_ops] in E; [injection E as <-; exact W|].
   destruct (run_op l o) as [l1| | |] eqn:E1; cbn [bind] in E; try discriminate.
   eapply IH; [eapply (run_op_keeps o); eassumption|exact E].
+Qed.
+
+(* hence after ANY sequence of calls that returns, ToString and Write return too *)
+Corollary to_string_total os l l' : ins l -> run_ops l os = Ok l' -> to_string l' = Ok (text_of l').
+Proof.
+  intros I E. destruct (run_ops_keeps os l l' I E) as [_ H]. unfold to_string.
+  destruct (Nat.ltb_spec BUFSZ (index l')); [lia|reflexivity].
+Qed.
+
+Corollary write_total os l l' : ins l -> run_ops l os = Ok l' -> exists t, write_out l' = Ok t.
+Proof.
+  intros I E. destruct (run_ops_keeps os l l' I E) as [_ H]. unfold write_out.
+  destruct (Nat.leb_spec BUFSZ (index l')) as [G|G]; cbv zeta.
+  - unfold dec_index. cbn [index].
+    assert (P : (Nat.pred (index l') < BUFSZ)%nat) by (pose proof bufsz_ge_10; destruct (index l'); cbn [Nat.pred]; lia).
+    destruct (Nat.ltb_spec (Nat.pred (index l')) BUFSZ); [eexists; reflexivity|exfalso; lia].
+  - destruct (Nat.ltb_spec (index l') BUFSZ); [eexists; reflexivity|exfalso; lia].
 Qed.
 
 (* ---------------------------------------------------------------- the three outcomes, by example *)
@@ -276,8 +311,9 @@ Lemma nofit_truncates :
              index l' = BUFSZ /\ skipn 2040 (text_of l') = [32; 97; 61; 49; 50; 51; 52; 53].
 Proof. eexists. split; [vm_compute; reflexivity|]. split; vm_compute; reflexivity. Qed.
 
-(* IP through AppendTo: the call returns, the index has passed the buffer, ToString panics *)
-Lemma nofit_index_past :
+(* IP through AppendTo (repaired): cut at byte 2048 like every copy, the index stays inside, ToString returns *)
+Lemma nofit_ip_truncates :
   exists l', run_op (full_line 2040) (OIP [97] (Some [10; 0; 0; 1]) [49; 48; 46; 48; 46; 48; 46; 49]) = Ok l' /\
-             (BUFSZ < index l')%nat /\ to_string l' = Panic.
-Proof. eexists. split; [vm_compute; reflexivity|]. split; vm_compute; [lia|reflexivity]. Qed.
+             index l' = BUFSZ /\ skipn 2040 (text_of l') = [32; 97; 61; 49; 48; 46; 48; 46] /\
+             to_string l' = Ok (text_of l').
+Proof. eexists. split; [vm_compute; reflexivity|]. repeat split; vm_compute; reflexivity. Qed.
